@@ -45,14 +45,6 @@ def match_d8(payload):
             and bool(ds) and ds["off"] > r["off"])
 
 
-def match_gmt_none(payload):
-    """tzstr('UTC') / tzstr('GMT...') with no offset after the name: TypeError (None *= -1)."""
-    inp = payload.get("input") or {}
-    return (payload.get("kind", "").startswith("TypeError") and payload.get("impl") == [2]
-            and inp.get("parsed_stdabbr") in ("GMT", "UTC") and inp.get("parsed_stdoffset") is None
-            and not inp.get("posix_offset"))
-
-
 def match_negative_dst(payload):
     """tzstr/tzrange with a daylight offset smaller than the standard offset (negative saving)."""
     inp = payload.get("input") or {}
@@ -62,9 +54,18 @@ def match_negative_dst(payload):
             and inp.get("zone_kind") in ("tzstr", "tzrange") and bool(ds) and ds["off"] < r["off"])
 
 
+def match_tzlocal_negative_dst(payload):
+    """tzlocal under a TZ whose daylight offset is smaller than the standard offset."""
+    inp = payload.get("input") or {}
+    r = inp.get("rule")
+    ds = r.get("dst") if isinstance(r, dict) else None
+    return (payload.get("kind", "").startswith("implementation differs from the POSIX specification")
+            and inp.get("zone_kind") == "tzlocal" and bool(ds) and ds["off"] < r["off"])
+
+
 MATCHERS = {"c08_negative_dst_saving": match_negative_dst,
-            "c08_d8_rule_time_outside_standard_day": match_d8,
-            "c08_gmt_utc_without_offset_typeerror": match_gmt_none}
+            "c08_tzlocal_negative_dst_saving": match_tzlocal_negative_dst,
+            "c08_d8_rule_time_outside_standard_day": match_d8}
 
 
 # ---------------------------------------------------------------------------------------------
@@ -319,9 +320,16 @@ def check_local(verdict, st, o, r, s, guards, in_guard, us, ws):
         want_dst = r["dst"]["off"] if r["dst"] else r["off"]
         got = (int(z._std_offset.total_seconds()), int(z._dst_offset.total_seconds()))
         names_ok = (T.tzname[0] == r["name"] and (r["dst"] is None or T.tzname[1] == r["dst"]["name"]))
+        neg = r["dst"] is not None and r["dst"]["off"] < r["off"]
         if got != (want_std, want_dst) or not names_ok:
-            st.bump("tzlocal_skipped_libc_read_the_string_differently")
-            return
+            swapped = (r["dst"] is not None and got == (want_dst, want_std) and
+                       T.tzname[0] == r["dst"]["name"] and T.tzname[1] == r["name"])
+            if not (neg and swapped):
+                st.bump("tzlocal_skipped_libc_read_the_string_differently")
+                return
+            # negative saving: CPython's time.timezone / altzone / tzname are the January / July pair,
+            # tzlocal takes them for the (isdst=0, isdst=1) pair -> compared with the spec below
+            st.bump("tzlocal_negative_saving_time_module_pair_swapped")
         st.bump("tzlocal_zones")
         spec_u = P.dec_spec_utc(o.call(P.E_SPEC_UTC, enc + us), len(us)) if us else []
         # glibc as witness for the SPEC (not a verdict about dateutil)
@@ -335,7 +343,7 @@ def check_local(verdict, st, o, r, s, guards, in_guard, us, ws):
             else:
                 st.bump("libc_vs_spec_agreements")
         # tzlocal vs spec (UTC) -- tzlocal has no D8 defect: guard is wf + apart only
-        g_local = guards["wf"] and guards["apart"]
+        g_local = guards["wf"] and (guards["apart"] or neg)
         for k, u in enumerate(us):
             iu = P.impl_obs_utc(z, u)
             st.evals += 1
@@ -455,6 +463,10 @@ def check_parser(verdict, st, o, strings):
     zres = o.call_many([(P.E_TZSTR_ZONE, [0] + P.estr(s)) for s in strings])
     for s, mv, zv in zip(strings, mres, zres):
         st.evals += 1
+        if (isinstance(mv, str) and mv.startswith("OVF")) or (isinstance(zv, str) and zv.startswith("OVF")):
+            # a number beyond the oracle driver's 2^62 range (token soup with a very long digit run)
+            st.bump("oracle_overflow_skipped")
+            continue
         ip = impl_parse(s)
         mp = dec_parse(mv)
         st.bump("parse_" + ("none" if ip == [-1] else "exc" if ip[0] != 0 else
@@ -473,6 +485,11 @@ def check_parser(verdict, st, o, strings):
                                "input": {"s": s, "posix_offset": False,
                                          "parsed_stdabbr": mp[1] if mp[0] == 0 else None,
                                          "parsed_stdoffset": mp[2] if mp[0] == 0 else None}})
+        if (zi == ["EXC:OverflowError"] and isinstance(zm, list) and zm[0] == 0 and
+                max(abs(zm[2]), abs(zm[3])) >= 10 ** 9):
+            # datetime.timedelta range (absurd hour counts from the token soup): not modelled
+            st.bump("timedelta_overflow_skipped")
+            continue
         if zi != zm:
             st.model_diff += 1
             verdict.violation({"kind": "correspondence: tzstr(s) construction differs from the model",
@@ -579,7 +596,7 @@ def main():
         o = C.Oracle(AREA)
         rng = C.rng("C08")
         years = YEARS_Q if tier == "quick" else YEARS_T
-        n_rules = 200 if tier == "quick" else 1500
+        n_rules = 130 if tier == "quick" else 450
         # ---- regression corpus first
         cpath = os.path.join(C.VERIF, "corpus", "regressions", "C08.jsonl")
         corpus = []
@@ -594,9 +611,53 @@ def main():
         t_stream = time.time()
         for k, r in enumerate(rules):
             check_rule(verdict, st, o, r, rng, years, k, tier, do_local=(k % 3 == 0))
-            if tier == "quick" and time.time() - t_stream > 100:
+            if tier == "quick" and time.time() - t_stream > 70:
                 st.bump("rule_stream_cut_by_budget_at", k)
                 break
+        # ---- tzrange constructor defaults (documented: first Sunday of April 2:00 / last Sunday of
+        #      October 2:00 daylight time, saving one hour) against the model and the specification
+        from dateutil import tz as _tz
+        dflt_rule = {"name": "EST", "off": -18000,
+                     "dst": {"name": "EDT", "off": -14400, "start": (('M', 4, 1, 0), 7200),
+                             "end": (('M', 10, 5, 0), 7200)}}
+        combos = [(("EST", -18000, "EDT", None, None, None), dflt_rule),
+                  (("EST", -18000, "EDT", -14400, None, None), dflt_rule),
+                  (("EST", -18000, None, None, None, None), {"name": "EST", "off": -18000, "dst": None}),
+                  (("EST", None, None, None, None, None), {"name": "EST", "off": 0, "dst": None}),
+                  (("EST", None, "EDT", None, None, None), None),
+                  (("EST", -18000, "EDT", -10800, None, None),
+                   {"name": "EST", "off": -18000,
+                    "dst": {"name": "EDT", "off": -10800, "start": (('M', 4, 1, 0), 7200),
+                            "end": (('M', 10, 5, 0), 10800)}}),
+                  (("EST", -18000, None, None, {"month": 3, "day": 1, "weekday": (6, 2), "hours": 2},
+                    {"month": 11, "day": 1, "weekday": (6, 1), "hours": 1}), None),
+                  (("EST", -18000, "", None, None, None), {"name": "EST", "off": -18000, "dst": None})]
+        for a, rr in combos:
+            try:
+                zr = _tz.tzrange(a[0], a[1], a[2], a[3], P.make_rd(a[4]), P.make_rd(a[5]))
+                hi = zone_header(zr)
+            except Exception as ex:
+                zr, hi = None, [P.exc_code(ex)]
+            ea = P.enc_tzrange_args(a)
+            hm = dec_zone(o.call(P.E_TZRANGE_ZONE, ea))
+            st.evals += 1
+            st.bump("tzrange_default_combos")
+            if hi != hm:
+                st.model_diff += 1
+                verdict.violation({"kind": "correspondence: tzrange attributes differ from the model",
+                                   "input": {"args": repr(a), "zone_kind": "tzrange"}, "impl": hi, "model": hm},
+                                  concrete=False)
+                continue
+            if zr is None:
+                continue
+            us2 = instants(o, rr if rr is not None else dflt_rule, [2023, 2024], grid_year=2024,
+                           grid_step=3 * 86400 + 3600)
+            ws2 = walls_for(rr if rr is not None else dflt_rule, us2)[::2]
+            m_u = P.dec_utc_batch(o.call(P.E_TZRANGE_UTC, ea + us2), len(us2))
+            m_w = P.dec_wall_batch(o.call(P.E_TZRANGE_WALL, ea + [x for wf in ws2 for x in wf]), len(ws2))
+            compare_zone(verdict, st, o, "tzrange", zr, rr, "tzrange%r" % (a[:4],), {"wf": True, "apart": True,
+                                                                                     "d8": True},
+                         rr is not None, us2, ws2, m_u, m_w, {"args": repr(a)})
         # ---- small-scope exhaustive: every Mm.w.d start with a fixed end, transitions of 3 years
         ex_n = 0
         for m in range(2, 6):
@@ -630,13 +691,13 @@ def main():
         st.bump("small_scope_M_rules", ex_n)
         # ---- parser: canonical strings, variants, mutations, token soup, deprecated format
         strings = []
-        for k, r in enumerate(rules[:(150 if tier == "quick" else 1500)]):
+        for k, r in enumerate(rules[:(100 if tier == "quick" else 450)]):
             canon = "".join(chr(c) for c in o.call(P.E_RENDER, P.enc_posix(r)))
             strings.append(canon)
             strings.append(P.render_variant(r, rng))
             strings.append(mutate(canon, rng))
             strings.append(mutate(mutate(canon, rng), rng))
-        strings += [soup(rng) for _ in range(1500 if tier == "quick" else 20000)]
+        strings += [soup(rng) for _ in range(1000 if tier == "quick" else 20000)]
         strings += DEPRECATED + ["", ",", "EST", "EST5", "EST5EDT", "EST5EDT,", "UTC", "GMT", "GMT+3", "UTC-3",
                                  "UTC+3", "GMT-3", "EST5EDT4", "EST5:30EDT", "EST+5EDT", "EST-5EDT",
                                  "EST5EDT,J0/0,J1", "EST5EDT,M13.1.0,M11.1.0", "EST5EDT,M3.0.0,M11.1.0",
@@ -645,7 +706,7 @@ def main():
         # small scope: 'EST5EDT,' followed by every sequence of up to 3 (quick) / 4 (thorough) tokens
         small_alpha = ["M", "J", "3", "10", ".", "/", ",", ":", "-", "2"]
         import itertools
-        depth = 3 if tier == "quick" else 4
+        depth = 2 if tier == "quick" else 4
         for k in range(1, depth + 1):
             for combo in itertools.product(small_alpha, repeat=k):
                 strings.append("EST5EDT," + "".join(combo))
@@ -653,7 +714,7 @@ def main():
         check_parser(verdict, st, o, strings)
         # ---- property-level streams
         n_mal = 0
-        for r in rules[:(120 if tier == "quick" else 1500)]:
+        for r in rules[:(80 if tier == "quick" else 450)]:
             if r["dst"] is None:
                 continue
             canon = "".join(chr(c) for c in o.call(P.E_RENDER, P.enc_posix(r)))
